@@ -12,7 +12,7 @@
 void h_lemma_request_then_reply(void) {
   gh_havoc();
   QXmppIncomingClient c; QXmppIncomingClientPrivate d; QTimer timer; QSslSocket sock; QXmppSaslServer sasl; QXmppSaslServer later; QXmppPasswordChecker checker;
-  c.d = &d; d.q = &c; d.idleTimer = &timer; d.socket.m_socket = &sock; d.saslServer = &sasl; d.passwordChecker = &checker;
+  __CPROVER_assume(QXmppIncomingClientPrivate_ENUMS_VALID(&d)); c.d = &d; d.q = &c; d.idleTimer = &timer; d.socket.m_socket = &sock; d.saslServer = &sasl; d.passwordChecker = &checker;
   gh_prop_n = 0; gh_ov_n = 0;
   sasl.mechanism = S("PLAIN");
   qbytes response = nondet_int();
@@ -22,7 +22,7 @@ void h_lemma_request_then_reply(void) {
   qstr asked_user = gh_req_user; qstr asked_domain = gh_req_domain; QXmppPasswordReply *reply = gh_req_reply;
   /* --- anything handleStanza may do before the reply arrives (its assigns clause), except to the reply object */
   if (nondet_bool()) d.saslServer = &later; else if (nondet_bool()) d.saslServer = NULL; else { sasl.username = nondet_qstr(); sasl.password = nondet_qstr(); sasl.m_step = nondet_int(); }
-  d.saslVersion = nondet_int(); d.sasl2AuthRequest.has = nondet_bool(); d.sasl2AuthRequest.v.bindRequest.has = nondet_bool(); d.sasl2AuthRequest.v.bindRequest.v.tag = nondet_qstr();
+  d.saslVersion = nondet_int(); __CPROVER_assume(QXmppIncomingClientPrivate_ENUMS_VALID(&d)) /* handleStanza's verified postcondition */; d.sasl2AuthRequest.has = nondet_bool(); d.sasl2AuthRequest.v.bindRequest.has = nondet_bool(); d.sasl2AuthRequest.v.bindRequest.v.tag = nondet_qstr();
   d.jid = nondet_qstr(); d.resource = nondet_qstr();
   /* --- the reply finishes */
   gh_sender = reply; gh_sender_req_user = asked_user; gh_sender_req_domain = asked_domain;
@@ -51,7 +51,7 @@ void h_lemma_digest_lookup_then_reply(void) {
   QXmppPasswordReply *reply = QXmppPasswordChecker_getDigest_base(&checker, &request);
   int lookup = gh_gp_result; qstr secret = gh_gp_secret;
   QXmppIncomingClient c; QXmppIncomingClientPrivate d; QTimer timer; QSslSocket sock; QXmppSaslServer sasl;
-  c.d = &d; d.q = &c; d.idleTimer = &timer; d.socket.m_socket = &sock; d.passwordChecker = &checker;
+  __CPROVER_assume(QXmppIncomingClientPrivate_ENUMS_VALID(&d)); c.d = &d; d.q = &c; d.idleTimer = &timer; d.socket.m_socket = &sock; d.passwordChecker = &checker;
   d.saslServer = nondet_bool() ? &sasl : NULL;
   qbytes raw = nondet_int();
   gh_prop_n = 1; gh_prop_obj[0] = reply; gh_prop_name[0] = S("__sasl_raw"); gh_prop_val[0] = raw; gh_ov_n = 0;
